@@ -329,7 +329,7 @@ ADDED7 = {
     "C10": " (R7) a strain tensor (map) of one frame is never obtained from the other frame's tensor by rotating with the Busing-Levy orientation U: the two are related by the polar rotation of F (found F36 in TensorMap, repaired with a polar-rotation kernel; R5 now accepts self.polar_rotation() for strain maps).",
     "C11": " (R7) a label image kept on the object (labelimage.blim, SparseScan.labels) is rewritten on every path of the function that labels a frame: must-pass-through of a kernel call or a zero fill before every normal exit.",
     "C13": " (R9) sparse_localmaxlabel links pixel k with an earlier stored pixel only when the conditions dominating the link admit nothing but 8-neighbours: finite case analysis over the row / column distances admissible for sorted input.",
-    "C14": " (R8) sparse_frame.to_dense: a caller-supplied 'out' is overwritten as a whole (coo_matrix.todense(out=)) or zero-filled before the pixels are scattered into it.",
+    "C14": " (R8) sparse_frame.to_dense: a caller-supplied 'out' is overwritten as a whole (coo_matrix.todense(out=)) or zero-filled before the pixels are scattered into it. (R9) from_data_mask takes the pixel count, the kernel argument and the value index from one boolean selection, never the raw mask (found F39: uninitialised coordinates for label images used as masks).",
     "C16": " (R7) point_by_point.idxpoint returns only orientations that went through sym_u.find_uniq_u, on the one-candidate early return as well as from the sorted loop (dominance on the flow graph).",
     "C17": " R4 also covers a whole-table selection self.__data[:, rows] stored into the copy. R9 also forbids storing permuted values INTO the old column arrays when a writer keeps the caller's array (overlapping views; found F37); R2 no longer demands in-place stores.",
     "C18": " (R8) sparse-frame groups: from_hdf_group reads every dataset and attribute it finds, so to_hdf_group deletes the datasets and per-array attributes of an earlier save that it does not write (found F38).",
